@@ -122,7 +122,7 @@ def checker_factory(modname):
 def _task(arg):
     modname, lengths, tier = arg
     try:
-        sw = accept.AcceptSweep(modname, lengths, checker_factory(modname), tier, 400 if tier == 'quick' else 2500, 'C17')
+        sw = accept.AcceptSweep(modname, lengths, checker_factory(modname), tier, 150 if tier == 'quick' else 2500, 'C17')
         return sw.run()
     except Exception as e:      # noqa: B902
         import traceback
@@ -182,9 +182,9 @@ def bounded(rep, tier):
 def check(prop, tier, args):
     rep = Report('C17', tier, 'proof', './check C17 --tier %s' % tier, seed=int(os.environ.get('VERIF_SEED', '0') or 0))
     mods = [m for m in SUBST if not args.modules or m in args.modules]
-    units = accept.accepting_units(modules=mods if args.modules else None)
+    units = accept.accepting_units(modules=mods)
     items = [(m, sorted({n for o, n in units.get(m, []) if n != 'long'}), tier) for m in mods if m in units]
-    res = accept.run_modules(_task, items, 900 if tier == 'quick' else 5000)
+    res = accept.run_modules(_task, items, 240 if tier == 'quick' else 5000)
     for m in sorted(res):
         r = res[m]
         rep.functions.add(m + ':validate')
